@@ -6,7 +6,7 @@ P = "PcVerif.Props.C07."
 THEOREMS = [P + t for t in ["default_ids_pinned", "region_ids_distinct", "region_refs_resolve", "regions_all_referenced", "escape_content_wf"]]
 XMLNS = "{http://www.w3.org/XML/1998/namespace}"
 TT = "{http://www.w3.org/ns/ttml}"
-NASTY = ["a&b", "x<y", 'say "hi"', "it's", "1>0", "&amp;", "<b>", "]]>", "ok", "plain", "é", "#ff0000", "white", "10pt", "Arial, sans-serif"]
+NASTY = ["a&b", "x<y", 'say "hi"', "it's", "1>0", "&amp;", "<b>", "]]>", "ok", "plain", "é", "#ff0000", "white", "10pt", "Arial, sans-serif", "AT&T;", "&nbsp;", "&#xZZ;", "&copy;", "R&D; x", "&#38;", "&lt;"]
 
 
 def make(tier, seed):
